@@ -2,12 +2,14 @@
 
 from simkit.machines.crash import CrashMachine
 from simkit.machines.edits import EditsMachine
+from simkit.machines.scans import ScansMachine
 from simkit.machines.simtime import SimTimeMachine
 from simkit.machines.steady import SteadyMachine
 
 REGISTRY = {
     "C03": EditsMachine,
     "C04": SimTimeMachine,
+    "C09": ScansMachine,
     "C14": SimTimeMachine,
     "C15": SteadyMachine,
     "C19": CrashMachine,
